@@ -161,7 +161,8 @@ func (f *pureFnInfo) retType() string {
 }
 
 type pureTr struct {
-	c      *ctx
+	c       *ctx
+	externs map[string]*pureFnInfo // "pkg.Name" of functions translated in another module
 	fns    map[string]*pureFnInfo // dir + "." + name
 	tables map[string]bool        // dir + "." + name (bool tables)
 	out    []string
@@ -611,13 +612,27 @@ func (fc *pFnCtx) call(x *ast.CallExpr, env *pEnv, want pTy) (string, pTy, []pBi
 			return s, tBytes, b, nil
 		}
 	}
-	id, ok := x.Fun.(*ast.Ident)
-	if !ok {
-		return "", "", nil, fmt.Errorf("call of %s", pSrc(x.Fun))
+	var info *pureFnInfo
+	var id *ast.Ident
+	if sel, ok := x.Fun.(*ast.SelectorExpr); ok {
+		if pk, ok := sel.X.(*ast.Ident); ok {
+			id = sel.Sel
+			info = fc.tr.externs[pk.Name+"."+sel.Sel.Name]
+			if info == nil {
+				return "", "", nil, fmt.Errorf("call of %s.%s, which is not translated", pk.Name, sel.Sel.Name)
+			}
+		}
 	}
-	info := fc.tr.fns[fc.dir+"."+id.Name]
 	if info == nil {
-		return "", "", nil, fmt.Errorf("call of %s, which is not translated", id.Name)
+		var ok bool
+		id, ok = x.Fun.(*ast.Ident)
+		if !ok {
+			return "", "", nil, fmt.Errorf("call of %s", pSrc(x.Fun))
+		}
+		info = fc.tr.fns[fc.dir+"."+id.Name]
+		if info == nil {
+			return "", "", nil, fmt.Errorf("call of %s, which is not translated", id.Name)
+		}
 	}
 	if info.hasErr {
 		return "", "", nil, fmt.Errorf("call of %s (returns an error) inside an expression", id.Name)
@@ -874,10 +889,21 @@ func (fc *pFnCtx) stmt(s ast.Stmt, env *pEnv, ind int, k pK) (string, error) {
 		return fc.retStmt(x, env, ind)
 	case *ast.IfStmt:
 		if x.Init != nil {
-			return "", fmt.Errorf("if with init statement")
+			// `if v := e; cond {…}`: v is in scope in the condition and both branches only
+			inner := *x
+			inner.Init = nil
+			return fc.stmt(x.Init, env, ind, func(env2 *pEnv) (string, error) {
+				return fc.stmt(&inner, env2, ind, func(env3 *pEnv) (string, error) {
+					outer := env.clone()
+					for n, t := range env3.vars {
+						if _, ok := outer.vars[n]; ok {
+							outer.vars[n] = t
+						}
+					}
+					return k(outer)
+				})
+			})
 		}
-		kT := func() (string, error) { return fc.stmts(x.Body.List, env, ind+1, func(*pEnv) (string, error) { return fc.after(x.Body.List, env, ind+1, k) }) }
-		_ = kT
 		thenK := func() (string, error) { return fc.block(x.Body.List, env, ind+1, k) }
 		elseK := func() (string, error) {
 			if x.Else == nil {
@@ -1208,8 +1234,8 @@ func (fc *pFnCtx) forLoop(x *ast.ForStmt, env *pEnv, ind int, k pK) (string, err
 		return "", fmt.Errorf("loop variable shadows %s", iv.Name)
 	}
 	ce, ok := x.Cond.(*ast.BinaryExpr)
-	if !ok || ce.Op != token.LSS {
-		return "", fmt.Errorf("for-loop condition must be `i < bound`")
+	if !ok || (ce.Op != token.LSS && ce.Op != token.LEQ) {
+		return "", fmt.Errorf("for-loop condition must be `i < bound` or `i <= bound`")
 	}
 	if id, ok := ce.X.(*ast.Ident); !ok || id.Name != iv.Name {
 		return "", fmt.Errorf("for-loop condition must be `i < bound`")
@@ -1284,7 +1310,11 @@ func (fc *pFnCtx) forLoop(x *ast.ForStmt, env *pEnv, ind int, k pK) (string, err
 	def := fmt.Sprintf("/-- loop %d of `%s`: `for %s := …; %s < …; %s++` (iterations left = bound - %s, counter, loop-carried variables) -/\ndef %s %s : %s → %s\n  | 0, %s =>\n      %s\n  | %s + 1, %s =>\n      %s\n",
 		num, fc.spec.name, iv.Name, iv.Name, iv.Name, iv.Name, name, fc.binders(fixed, env), sig, fc.info.retType(), pats, after, fuelN, pats, body)
 	fc.aux = append(fc.aux, def)
-	fc.loopCall[x] = call("("+bs0+" - "+as0+").toNat", as0)
+	iters := "(" + bs0 + " - " + as0 + ").toNat"
+	if ce.Op == token.LEQ {
+		iters = "(" + bs0 + " - " + as0 + " + 1).toNat"
+	}
+	fc.loopCall[x] = call(iters, as0)
 	return fc.loopCall[x], nil
 }
 
@@ -1366,6 +1396,13 @@ func pCanPanic(tr *pureTr, dir string, fd *ast.FuncDecl) bool {
 			if id, ok := x.Fun.(*ast.Ident); ok {
 				if f := tr.fns[dir+"."+id.Name]; f != nil && f.canPanic {
 					can = true
+				}
+			}
+			if sel, ok := x.Fun.(*ast.SelectorExpr); ok {
+				if pk, ok := sel.X.(*ast.Ident); ok {
+					if f := tr.externs[pk.Name+"."+sel.Sel.Name]; f != nil && f.canPanic {
+						can = true
+					}
 				}
 			}
 		}
@@ -1532,6 +1569,8 @@ func (tr *pureTr) table(t pureTable) error {
 }
 
 type pureModule struct {
+	imports []string
+	externs map[string]*pureFnInfo
 	name   string
 	tables []pureTable
 	fns    []pureSpec
@@ -1539,7 +1578,7 @@ type pureModule struct {
 
 func registerPure(m pureModule) {
 	register(m.name, func(c *ctx) (string, error) {
-		tr := &pureTr{c: c, fns: map[string]*pureFnInfo{}, tables: map[string]bool{}}
+		tr := &pureTr{c: c, fns: map[string]*pureFnInfo{}, tables: map[string]bool{}, externs: m.externs}
 		for _, t := range m.tables {
 			if err := tr.table(t); err != nil {
 				return "", err
@@ -1550,7 +1589,11 @@ func registerPure(m pureModule) {
 				return "", err
 			}
 		}
-		return "import Req.Base.GoSem\nset_option linter.unusedVariables false\nnamespace Generated." + m.name + "\nopen Req.GoSem\n\n" +
+		imp := ""
+		for _, i := range m.imports {
+			imp += "import " + i + "\n"
+		}
+		return "import Req.Base.GoSem\n" + imp + "set_option linter.unusedVariables false\nnamespace Generated." + m.name + "\nopen Req.GoSem\n\n" +
 			strings.Join(tr.out, "\n") + "\nend Generated." + m.name + "\n", nil
 	})
 }
@@ -1588,6 +1631,11 @@ func init() {
 			{dir: ".", name: "stringContainsCTLByte", lean: "stringContainsCTLByte"},
 			{dir: ".", name: "isASCIILetter", lean: "isASCIILetter"},
 			{dir: ".", name: "trim", lean: "trim", fuel: []string{"s.length + 1", "s.length + 1"}},
+			{dir: ".", name: "hasToken", lean: "hasToken"},
+		},
+		imports: []string{"Generated.PureAscii"},
+		externs: map[string]*pureFnInfo{
+			"ascii.EqualFold": {lean: "Generated.PureAscii.equalFold", params: []pTy{tBytes, tBytes}, result: tBool, canPanic: true},
 		},
 	})
 	registerPure(pureModule{
